@@ -57,12 +57,68 @@ let run_hlc (toks : string list) : string =
     String.concat " " outs ^ " | " ^ h c
   | _ -> "?bad-case"
 
+(* ---- component: orswot (C03 C04 C05 C08) --------------------------------- *)
+let sort_pairs (l : (Model.n * Model.n) list) : (Model.n * Model.n) list =
+  let key (k, t) = (hex_of_n k, hex_of_n t) in
+  let cmp a b =
+    let (ka, ta) = key a and (kb, tb) = key b in
+    let c = compare (String.length ka, ka) (String.length kb, kb) in
+    if c <> 0 then c else compare (String.length ta, ta) (String.length tb, tb)
+  in
+  List.sort cmp l
+
+let show_pairs l =
+  "[" ^ String.concat "," (List.map (fun (k, t) -> h k ^ "=" ^ h t) (sort_pairs l)) ^ "]"
+
+let run_orswot (toks : string list) : string =
+  match toks with
+  | "seq" :: nsrc :: legacy :: ops ->
+    let nsrc = nat_of_int (int_of_string nsrc) in
+    let legacy = legacy = "1" in
+    let sets = Array.make 4 (Model.empty_set nsrc) in
+    let cur = ref 0 in
+    let out = Buffer.create 256 in
+    let emit s = if Buffer.length out > 0 then Buffer.add_char out ' '; Buffer.add_string out s in
+    List.iter
+      (fun tok ->
+        if String.length tok > 0 && tok.[0] = '@' then
+          cur := int_of_string (String.sub tok 1 (String.length tok - 1))
+        else
+          match String.split_on_char ':' tok with
+          | [ "i"; src; k; t ] ->
+            let s', b = Model.insert_ws legacy sets.(!cur) (nat_of_int (int_of_string src)) (n k) (n t) in
+            sets.(!cur) <- s'; emit (show_bool b)
+          | [ "d"; src; k; t ] ->
+            let s', b = Model.delete_ws legacy sets.(!cur) (nat_of_int (int_of_string src)) (n k) (n t) in
+            sets.(!cur) <- s'; emit (show_bool b)
+          | [ "w"; k; t ] -> emit (show_bool (Model.will_apply sets.(!cur) (n k) (n t)))
+          | [ "g"; k ] -> emit (show_option h (Model.set_get sets.(!cur) (n k)))
+          | [ "p" ] ->
+            let purged, s' = Model.set_purge sets.(!cur) in
+            sets.(!cur) <- s'; emit ("p" ^ show_pairs purged)
+          | [ "M"; j ] -> sets.(!cur) <- Model.set_merge sets.(!cur) sets.(int_of_string j)
+          | [ "F"; j ] ->
+            let m, r = Model.set_diff sets.(!cur) sets.(int_of_string j) in
+            emit ("F" ^ show_pairs m ^ show_pairs r)
+          | "S" :: rest ->
+            let probes = match rest with [ "" ] | [] -> [] | [ l ] -> String.split_on_char ',' l | _ -> [] in
+            let s = sets.(!cur) in
+            emit
+              ("E" ^ show_pairs (Model.entries_list s) ^ "D" ^ show_pairs (Model.dead_list s) ^ "B["
+               ^ String.concat "" (List.map (fun t -> show_bool (Model.before_set s (n t))) probes)
+               ^ "]")
+          | _ -> emit "?tok")
+      ops;
+    Buffer.contents out
+  | _ -> "?bad-case"
+
 let () =
   let comp = if Array.length Sys.argv > 1 then Sys.argv.(1) else "" in
   let f =
     match comp with
     | "ts" -> run_ts
     | "hlc" -> run_hlc
+    | "orswot" -> run_orswot
     | _ -> prerr_endline ("unknown component " ^ comp); exit 2
   in
   let out = Buffer.create 65536 in
